@@ -7,7 +7,7 @@ KINDS = ["func", "method", "classmethod", "staticmethod", "property", "inherited
          "wrapped", "innerclass", "lambda", "setprop", "nested_static", "localwrap"]
 # resolvability class of each kind (DESIGN 3.4)
 MAY = {"lambda", "setprop", "nested_static"}
-FLAVOUR_OK = {"func", "method", "classmethod", "staticmethod", "inherited", "wrapped", "innerclass"}
+FLAVOUR_OK = {"func", "method", "classmethod", "staticmethod", "inherited", "wrapped", "innerclass", "override"}
 EXITS = ["const", "constnone", "expr", "param", "implicit", "raise", "cond"]
 PK = ["posonly", "poskw", "kwonly"]
 
@@ -45,6 +45,8 @@ def function(draw, idx):
     f["catch"] = draw(st.booleans())
     f["recurse"] = draw(st.booleans()) and f["flavour"] == "plain" and kind in ("func", "method", "classmethod", "staticmethod")
     f["exit"] = draw(st.sampled_from(EXITS))
+    # parameters / locals captured by a nested lambda become cell variables (a longer frame prologue before the first RESUME)
+    f["capture"] = draw(st.sampled_from([0, 0, 1, 3]))
     f["yields"] = draw(st.lists(st.sampled_from(["@p", "1", "'y'", "None", "[1.5]", "{'a': 1}", "@cond", "@cond", "@from", "@from"]), max_size=4)) if f["flavour"] == "gen" else []
     f["awaits"] = draw(st.integers(0, 3)) if f["flavour"] == "coro" else 0
     return f
@@ -213,6 +215,12 @@ def render(prog):
         B = []
         ps = f["params"]["ps"]
         first = ps[0]["name"] if ps else None
+        if f.get("capture") and f["rebind"] != "del":
+            names = [p["name"] for p in ps][: f["capture"]]
+            for j in range(f["capture"] - len(names)):
+                B.append(f"{ind}_l{j} = {j}")
+                names.append(f"_l{j}")
+            B.append(f"{ind}_cap = lambda: ({', '.join(names)},)")
         if f["recurse"]:
             # recursion with a fuel counter kept by the recorder
             pos_args, kw_args = distribute(f, [first] * 1 if first else [])
